@@ -18,7 +18,7 @@ RULE = ('real transfers against the API-level fake (requests short-circuited at 
         'TransferManager.upload (virtual-size path source), copy and download, and downloads through legacy S3Transfer and the '
         'process-pool submitter; oracle over the request log (integers only): multipart iff size >= threshold; Range / CopySourceRange '
         '/ part body lengths consecutive from byte 0 to size-1 with part numbers 1..n; for uploads/copies effective part size in '
-        '[5 MiB, 5 GiB], n <= 10000, and a chunk size differing from the configured one only when a limit required it; non-trivial = '
+        '[5 MiB, 5 GiB], n <= 10000, and a chunk size differing from the configured one only when a limit required it; also history sequences: mixed kinds one after the other on ONE manager, starting with transfers whose part size must be adjusted, each later plan judged against the configured values; non-trivial = '
         'a multipart/ranged plan with >= 2 parts was checked; distinct = distinct (kind, front-end, size, threshold, chunksize)')
 ASSUMPTIONS = ['non-seekable streams of unknown size cannot be planned (only limit-adjusted); n <= 10000 for them would need > 48 GiB '
                'of streamed data and is not exercised',
